@@ -55,6 +55,30 @@ def script_operator_pairs(kind, rng, nv=4):
             ops.append(f"{o1} h{k} h{a} h{b}"); k += 1
             ops.append(f"{o2} h{k} h{a} h{b}"); k += 1
     ops.append("SNAP")
+    if kind != "mtbdd":
+        # restrict: a function, its complement and conjunctions with literals (complemented edges above shared
+        # sub-diagrams) restricted by a cube, by the cube without its top literal (the sub-problem the first call
+        # memoised) and by the cube again
+        for a in rng.sample(range(pool), 5):
+            na = k
+            ops.append(f"NOT h{k} h{a}"); k += 1
+            lit = k
+            ops.append(f"{rng.choice(['VAR', 'NVAR'])} h{k} {rng.randrange(nv)}"); k += 1
+            c1 = k
+            ops.append(f"NAND h{k} h{lit} h{a}"); k += 1
+            c2 = k
+            ops.append(f"AND h{k} h{lit} h{a}"); k += 1
+            for _ in range(3):
+                pos = rng.randrange(1, 1 << nv)
+                neg = rng.randrange(1 << nv) & ~pos
+                top = min(v for v in range(nv) if (pos | neg) >> v & 1)
+                spos, sneg = pos & ~(1 << top), neg & ~(1 << top)
+                for f in (a, na, c1, c2):
+                    if spos | sneg:
+                        ops.append(f"RESTRICT h{k} h{f} {spos} {sneg}"); k += 1
+                for f in (c1, a, c2, na, c1):
+                    ops.append(f"RESTRICT h{k} h{f} {pos} {neg}"); k += 1
+        ops.append("SNAP")
     # cache keys with NUMERIC operands: the substitution id (bdd, bcdd) resp. the variable number (zbdd
     # subset0/subset1/change) is part of the key; the same function is put through several substitution
     # objects / variables back to back, with ids that are congruent modulo small bucket counts
